@@ -487,3 +487,19 @@ func (p *Prog) stageArgFrom(s *stageCall, argIdx int, producerName string, resId
 	}
 	return false, "argument is " + short(org(v))
 }
+
+// reachesDangerous: g can reach link loading or command execution.
+func (p *Prog) reachesDangerous(g *ssa.Function) bool {
+	dangerous := map[*ssa.Function]bool{}
+	for _, n := range []string{"(*os/exec.Cmd).Start", "(*os/exec.Cmd).Run", "in_toto.LoadMetadata"} {
+		if f := p.lookupAny(n); f != nil {
+			dangerous[f] = true
+		}
+	}
+	for r := range reachable(p.CG, g) {
+		if dangerous[r] {
+			return true
+		}
+	}
+	return false
+}
